@@ -41,7 +41,7 @@ import (
 )
 
 func TestMain(m *testing.M) {
-	evid.Rule("rapid draws outside the bubble: 2-7 configurations over the host interfaces {eth0, eth1, eth2, wlan0, lo} — fresh ones (1-3 explicit names, 1-3 regular-expression keys from a pool with overlapping, anchored, " +
+	evid.Rule("rapid draws outside the bubble: the order in which the host enumerates its interfaces (the 2-3 executions of a sequence use it as drawn, reversed and rotated; they must agree on every interface's state and configuration), 2-7 configurations over the host interfaces {eth0, eth1, eth2, wlan0, lo} — fresh ones (1-3 explicit names, 1-3 regular-expression keys from a pool with overlapping, anchored, " +
 		"catch-all and non-matching patterns, both, or auto-detection with 0-3 excludes incl. regular expressions and names that do not exist), the previous one again (periodic reload), or the previous one with one change " +
 		"(promisc, ring buffer, ignore_vlans, extra BPF filter, disable, entry added / removed, exclude added / removed); per step 0-5 packets from a capharness packet script (both families, TCP/UDP/ICMP/other, malformed ones) " +
 		"to interfaces the previous configuration selects; instants: coarse sleep (none / 1 ms..120 s / 300..900 s across scheduled write-outs / up to 2 s..1 ms before the next scheduled write-out), packets, fine sleep " +
@@ -231,7 +231,7 @@ func compareRuns(s *seq, a, b *runResult, ia, ib int) *verdict {
 			}
 			text := fmt.Sprintf("step %d (%s) configuration %v: %s is %v in execution %d and %v in execution %d of the same sequence", pa.Step, pa.Phase, s.Steps[pa.Step].Cfg, n, oa, ia, ob, ib)
 			if len(exp[n]) > 1 {
-				return &verdict{Known: fF19a, Clause: "overlap-random-choice", Text: text + fmt.Sprintf(" — %s is matched by competing regular expressions (%s): the entry is chosen in Go map order", n, candText(exp[n]))}
+				return &verdict{Known: fF19a, Clause: "overlap-random-choice", Text: text + fmt.Sprintf(" — %s is matched by competing regular expressions (%s): the entry applied is not a function of the configuration (Go map order, or the order in which the host enumerates its interfaces: %v / %v)", n, candText(exp[n]), linkOrder(s.Links, ia-1), linkOrder(s.Links, ib-1))}
 			}
 			return &verdict{Clause: "nondeterministic", Text: text}
 		}
@@ -240,6 +240,23 @@ func compareRuns(s *seq, a, b *runResult, ia, ib int) *verdict {
 		return &verdict{Clause: "nondeterministic", Text: fmt.Sprintf("execution %d has %d check points, execution %d has %d", ia, len(a.Points), ib, len(b.Points))}
 	}
 	return nil
+}
+
+// linkOrder is the host's enumeration order in the k-th execution of a sequence.
+func linkOrder(drawn []string, k int) []string {
+	if len(drawn) == 0 {
+		drawn = universe
+	}
+	out := append([]string(nil), drawn...)
+	switch k % 3 {
+	case 1:
+		for i, j := 0, len(out)-1; i < j; i, j = i+1, j-1 {
+			out[i], out[j] = out[j], out[i]
+		}
+	case 2:
+		out = append(out[2%len(out):], out[:2%len(out)]...)
+	}
+	return out
 }
 
 func sumWOs(w []writeOut) (c capharness.Counters) {
@@ -434,7 +451,11 @@ func runCase(t *testing.T, rt *rapid.T, allow map[string]bool) {
 	}
 	var results []*runResult
 	for k := 0; k < s.Repeat; k++ {
-		res := execute(t, s)
+		// the executions differ in nothing but the order in which the host enumerates its interfaces:
+		// as drawn, reversed, rotated by two
+		sk := *s
+		sk.Links = linkOrder(s.Links, k)
+		res := execute(t, &sk)
 		results = append(results, res)
 		if res.Panic != "" || res.Err != nil || res.V != nil {
 			break
